@@ -103,11 +103,11 @@ package wamp
 
 //@ iface (Peer) Send
 //@   pure
-//@   ensures [chan] result == method(recv, "Send")
+//@   ensures [chan] result == method(recv, "Send") && result != nil
 
 //@ iface (Peer) Recv
 //@   pure
-//@   ensures [chan] result == method(recv, "Recv")
+//@   ensures [chan] result == method(recv, "Recv") && result != nil
 
 //@ iface (Message) MessageType
 //@   pure
@@ -201,3 +201,9 @@ package wamp
 // pointer wrapped in the interface (checked at every send under verification,
 // relied upon at every receive).
 //@ chaninv Message : wellformed(v)
+
+// Accepts any message, including none.
+//@ func IsGoodbyeAck
+//@   props C04
+//@   requires is(msg, *Goodbye) ==> msg.(*Goodbye) != nil
+//@   pure
